@@ -73,15 +73,18 @@ class FakeNode:
 def impl_check(sm):
     from allmydata.mutable.checker import MutableChecker
     from allmydata.monitor import Monitor
-    ch = MutableChecker.__new__(MutableChecker)
-    ch._monitor = Monitor()
-    ch.bad_shares = []
-    ch._storage_index = b"s" * 16
-    ch._node = FakeNode()
-    ch.need_repair = False
+    # the real constructor: whatever internal attributes the class keeps exist in the shape it gives them
+    ch = MutableChecker(FakeNode(), None, None, Monitor())
     ch._got_mapupdate_results(sm)
     cr = ch._make_checker_results(sm)
     return check_string(cr, ch.need_repair)
+
+
+def impl_check_results(sm):
+    from allmydata.mutable.checker import MutableChecker
+    from allmydata.monitor import Monitor
+    ch = MutableChecker(FakeNode(), None, None, Monitor())
+    return ch._make_checker_results(sm)
 
 
 def check_string(cr, need_repair):
@@ -103,8 +106,12 @@ def canon_model_check(out):
 
 def impl_repair(sm, vers, force, writekey):
     from allmydata.mutable.repairer import Repairer, MustForceRepairError, RepairRequiresWritecapError
-    r = Repairer.__new__(Repairer)
-    r.node = FakeNode(writekey)
+    node = FakeNode(writekey)
+    try:
+        r = Repairer(node, impl_check_results(sm), None, None, None)
+    except Exception:
+        r = Repairer.__new__(Repairer)
+    r.node = node
     try:
         d = r._got_full_servermap(sm, force)
     except MustForceRepairError as e:
@@ -157,7 +164,15 @@ def run_function_level(ctx, cases):
         jc = {"vers": [mc.enc_ver(v) for v in vers], "ops": [list(o) for o in ops]}
         known = c11.ref_known(vers, ops)
         nv = len(set(known.values()))
-        out = impl_check(sm)
+        try:
+            out = impl_check(sm)
+        except Exception:
+            import traceback
+            out = "harness-exception"
+            ctx.disagree("the real MutableChecker raised on this servermap", dict(jc, kind="check"),
+                         traceback.format_exc()[-800:], None)
+            ctx.count("check-harness-exception")
+            continue
         clines.append("check " + toks)
         cimpl.append(out)
         ccases.append(dict(jc, kind="check"))
@@ -168,7 +183,11 @@ def run_function_level(ctx, cases):
         ctx.count("check-healthy:" + out[0])
         for force in (False, True):
             for wk in ((True, False) if len(rlines) % 5 == 0 else (True,)):
-                o = impl_repair(sm, vers, force, wk)
+                try:
+                    o = impl_repair(sm, vers, force, wk)
+                except Exception as e:
+                    o = "harness-exception:" + type(e).__name__
+                    ctx.count("repair-harness-exception")
                 rlines.append("repair %s %s %s" % ("T" if force else "F", "T" if wk else "F", toks))
                 rimpl.append(o)
                 rc = dict(jc, kind="repair", force=force, wk=wk)
@@ -204,7 +223,12 @@ def gen_scenario(rng):
     fmt = rng.choice("sm")
     nver = rng.randrange(1, 5)
     damage = []
-    for _ in range(rng.randrange(0, 4)):
+    hidden = rng.random() < 0.25
+    if hidden:
+        # damage that the servermap update cannot see (block data / block-hash-tree root): only verify finds it
+        for _ in range(rng.randrange(1, 3)):
+            damage.append((rng.choice(["flip-data", "flip-hash"]), rng.randrange(n), rng.randrange(1 << 16)))
+    for _ in range(0 if hidden else rng.randrange(0, 4)):
         r = rng.random()
         if r < 0.30:
             damage.append(("del", sorted(rng.sample(range(n), rng.randrange(1, n + 1)))))
@@ -221,7 +245,7 @@ def gen_scenario(rng):
     return {"k": k, "n": n, "servers": S, "fmt": fmt, "sched": rng.randrange(1 << 30),
             "policy": rng.choice(["random", "random", "fifo"]),
             "contents": [rng.randbytes(rng.choice([6, 20, 33])).hex() for _ in range(nver)],
-            "damage": damage, "verify": rng.random() < 0.5, "force": rng.random() < 0.4}
+            "damage": damage, "verify": True if hidden else rng.random() < 0.5, "force": rng.random() < 0.4}
 
 
 def data_region(path):
@@ -232,11 +256,11 @@ def data_region(path):
     if hdr[0] == 0:
         (_v, _seq, _rh, _iv, _k, _n, _seg, _dl, o_sig, o_shc, o_bht, o_data, o_priv, o_eof) = \
             struct.unpack(">BQ32s16s BBQQ LLLLQQ", hdr[:struct.calcsize(">BQ32s16s BBQQ LLLLQQ")])
-        return m.DATA_OFFSET, o_data, o_priv
+        return m.DATA_OFFSET, o_data, o_priv, o_bht
     fmt = ">BQ32sBBQQ QQQQQQQQ"
     f = struct.unpack(fmt, hdr[:struct.calcsize(fmt)])
     o_data, o_bht = f[12], f[13]
-    return m.DATA_OFFSET, o_data, o_bht
+    return m.DATA_OFFSET, o_data, o_bht, o_bht
 
 
 def flip(path, off):
@@ -321,15 +345,21 @@ def run_scenario(ctx, sc, acc):
                             corrupt_data = {key for key in corrupt_data if key[0] in d[1] and key in cur}
                             corrupt_prefix = {key for key in corrupt_prefix if key[0] in d[1] and key in cur}
                             flipped = {key: v for key, v in flipped.items() if key[0] in d[1] and key in cur}
-                    elif d[0] in ("flip-data", "flip-prefix"):
+                    elif d[0] in ("flip-data", "flip-prefix", "flip-hash"):
                         files = [(i, sh, p) for (i, sh, p) in g.share_files(si) if sh == d[1]]
                         for (i, sh, p) in files[:1]:
-                            base, lo, hi = data_region(p)
+                            base, lo, hi, bht = data_region(p)
+                            if d[0] == "flip-hash":
+                                # the root of the block hash tree (always needed: it is this share's leaf of the share
+                                # hash tree)
+                                off = base + bht + d[2] % 32
+                                if flip(p, off):
+                                    flipped.setdefault((i, sh), set()).symmetric_difference_update({off})
                             # flipping the same bit twice restores the share: track the flipped offsets
-                            if d[0] == "flip-data":
+                            elif d[0] == "flip-data":
                                 if hi > lo and flip(p, base + lo + d[2] % (hi - lo)):
                                     flipped.setdefault((i, sh), set()).symmetric_difference_update({base + lo + d[2] % (hi - lo)})
-                            else:
+                            elif d[0] == "flip-prefix":
                                 if flip(p, base + d[2]):          # inside seqnum / root hash of the signed prefix
                                     flipped.setdefault((i, sh), set()).symmetric_difference_update({base + d[2]})
                             offs = flipped.get((i, sh), set())
@@ -375,6 +405,22 @@ def run_scenario(ctx, sc, acc):
                             verify, got, sorted((k2[0], sorted(v)) for k2, v in truth(not verify).items())), case,
                             "healthy-%s-grid-%s%s" % ("false-positive" if got else "false-negative", tag,
                                                       "-verify" if verify else ""))
+                    if verify and corrupt_data and not corrupt_prefix:
+                        strict = truth(False)
+                        recs = [key for key, shs in strict.items() if len(shs) >= sc["k"]]
+                        if recs and cr.is_recoverable():
+                            best = max(recs, key=lambda key: (key[0], key[1]))
+                            ctx.count("grid-verify-with-hidden-corruption")
+                            bad_in_best = len(truth(True).get(best, ())) > len(strict[best])
+                            if bad_in_best and cr.get_share_counter_good() > len(strict[best]):
+                                # observed on the unchanged tree: verify reports only the first corrupt share it meets
+                                # (2 damaged shares -> 1 listed); health is still False, which is all the statement asks
+                                ctx.count("grid-verify-missed-some-corrupt-shares(not in the statement)")
+                            if bad_in_best and cr.get_share_counter_good() >= sc["n"]:
+                                ctx.violation("check(verify=True) counts %d good shares (N=%d) although share(s) %r of the best "
+                                              "version are corrupt on disk" % (cr.get_share_counter_good(), sc["n"],
+                                                                               sorted(corrupt_data)), case,
+                                              "verify-counts-corrupt-share-as-good-" + tag)
                     # correspondence: the servermap inside the results through the model
                     sm = cr.get_servermap()
                     vers = mc.versions_of(sm)
@@ -439,6 +485,10 @@ def run_scenario(ctx, sc, acc):
                 g.close()
     except grid.Stuck as e:
         ctx.count("grid-stuck")
+    except Exception:
+        import traceback
+        ctx.disagree("grid scenario could not be driven to the end", case, traceback.format_exc()[-800:], None)
+        ctx.count("grid-harness-exception")
     finally:
         publish.DEFAULT_MUTABLE_MAX_SEGMENT_SIZE = saved_seg
 
